@@ -163,6 +163,7 @@ func BorrowInts(size int) []int {
 		return make([]int, size)
 	}
 	// log.Printf("Borrowing %p. Called by %v", retVal, string(debug.Stack()))
+	verifIntsBorrowed(retVal.([]int))
 	return retVal.([]int)[:size]
 }
 
@@ -190,6 +191,7 @@ func ReturnInts(is []int) {
 	// 	intsPool <- is
 	// }
 
+	verifIntsReturned(is)
 	intsPool[size].Put(is)
 }
 
